@@ -5,8 +5,10 @@ import (
 	"fmt"
 	"math"
 	"runtime"
+	"sort"
 	"strings"
 	"sync"
+	"sync/atomic"
 	"testing"
 	"time"
 
@@ -39,7 +41,7 @@ func (m *c23Model) observe(block uint64) bool {
 func c23GenStream(t *rapid.T) (stream []uint64, kinds []string) {
 	n := rapid.IntRange(1, 40).Draw(t, "length")
 	// base window: small, or close to the top of the uint64 range
-	top := uint64(math.MaxUint64/c23Freq) - 400 // room for every move of a case
+	top := uint64(math.MaxUint64/c23Freq) - 600 // room for every move of a case and the offers after cancellation
 	base := rapid.SampledFrom([]uint64{0, 0, 0, 1, 7, 1000, top}).Draw(t, "baseWindow")
 	cur := base // highest window index visited so far (0 = none yet)
 	var visited []uint64
@@ -118,6 +120,29 @@ func c23Patience() time.Duration {
 	return time.Duration(verifkit.EnvInt("VERIF_C23_PATIENCE_US", 250_000)) * time.Microsecond
 }
 
+// c23PostCancelOffers: how many consecutive blocks offered after cancel() the
+// watcher may take while still running before that is a violation. A correct
+// watcher that has not yet noticed the cancellation takes a block on offer
+// only by losing Go's fair select between the ready block and the closed
+// Done channel, so taking all of them has probability 2^-64.
+const c23PostCancelOffers = 64
+
+// c23Ctx is the context handed to the watcher. It is a plain cancellable
+// context until the harness has reached its verdict "the watcher never stops";
+// mute() then makes Done() block so that the watcher goroutine that can no
+// longer be stopped is at least parked instead of spinning.
+type c23Ctx struct {
+	context.Context
+	muted atomic.Bool
+}
+
+func (c *c23Ctx) Done() <-chan struct{} {
+	if c.muted.Load() {
+		return nil
+	}
+	return c.Context.Done()
+}
+
 type c23Recorder struct {
 	mu      sync.Mutex
 	windows []uint64
@@ -161,6 +186,7 @@ func TestVerif_C23_WindowsOnceInOrder(t *testing.T) {
 	st := verifkit.New("C23", "TestVerif_C23_WindowsOnceInOrder")
 	defer st.Flush()
 	baseline := runtime.NumGoroutine() // no watcher, no callbacks
+	leaked := 0                        // watchers that never returned (only after a violation was reported)
 	rapid.Check(t, func(t *rapid.T) {
 		stream, kinds := c23GenStream(t)
 		cancelAt := len(stream)
@@ -168,11 +194,12 @@ func TestVerif_C23_WindowsOnceInOrder(t *testing.T) {
 			cancelAt = rapid.IntRange(0, len(stream)).Draw(t, "cancelAt")
 		}
 
-		if !verifkit.Eventually(20*time.Second, func() bool { return runtime.NumGoroutine() <= baseline }) {
+		if !verifkit.Eventually(20*time.Second, func() bool { return runtime.NumGoroutine() <= baseline+leaked }) {
 			c23Inconclusive(t, "goroutines of the previous case did not settle")
 		}
-		ctx, cancel := context.WithCancel(context.Background())
+		inner, cancel := context.WithCancel(context.Background())
 		defer cancel()
+		ctx := &c23Ctx{Context: inner}
 		blocks := make(chan uint64) // unbuffered: a send returns once the watcher took the block
 		rec := &c23Recorder{landed: make(chan struct{}, 1024)}
 		returned := make(chan struct{})
@@ -231,7 +258,7 @@ func TestVerif_C23_WindowsOnceInOrder(t *testing.T) {
 						cancel()
 						c23Inconclusive(t, "watcher did not take the sentinel block within 20s")
 					}
-					if !verifkit.Eventually(20*time.Second, func() bool { return runtime.NumGoroutine() <= baseline+1 }) {
+					if !verifkit.Eventually(20*time.Second, func() bool { return runtime.NumGoroutine() <= baseline+leaked+1 }) {
 						cancel()
 						c23Inconclusive(t, "callback goroutines did not settle within 20s")
 					}
@@ -243,20 +270,73 @@ func TestVerif_C23_WindowsOnceInOrder(t *testing.T) {
 			}
 		}
 
-		// cancellation: the watcher has no block on offer, so it must see the
-		// cancelled context and return.
+		// Cancellation. No block is on offer at this moment, so a correct
+		// watcher sees the cancelled context and returns (normally within
+		// microseconds).
+		beforeCancel := len(rec.snapshot())
 		cancel()
+		watcherReturned := false
 		select {
 		case <-returned:
-		case <-time.After(20 * time.Second):
-			c23Inconclusive(t, "watcher did not return within 20s after cancellation")
+			watcherReturned = true
+		case <-time.After(c23Patience()):
 		}
-		// the watcher returned, hence every `go onWindowFn` it was ever going to
-		// issue has been issued; wait until those goroutines are gone.
-		if !verifkit.Eventually(20*time.Second, func() bool { return runtime.NumGoroutine() <= baseline }) {
-			c23Inconclusive(t, fmt.Sprintf("goroutines did not settle (%d > %d)", runtime.NumGoroutine(), baseline))
+		postConsumed := 0
+		if !watcherReturned {
+			// Slow machine, or a watcher that ignores the cancellation. Decide
+			// without the clock: the block source keeps emitting - further
+			// window starts are offered. A correct watcher that is merely late
+			// returns at its next select unless it loses the fair choice
+			// against a block on offer (documented race; such a block belongs
+			// to the history and goes into the model). A watcher that takes
+			// c23PostCancelOffers offers in a row and is still running does not
+			// stop.
+			st.Label("cancel:slow-path")
+			next := uint64(1)
+			if n := len(model.started); n > 0 {
+				next = model.started[n-1]/c23Freq + 1
+			}
+			bound := time.After(20 * time.Second)
+			for postConsumed < c23PostCancelOffers && !watcherReturned {
+				select {
+				case blocks <- next * c23Freq:
+					postConsumed++
+					model.observe(next * c23Freq)
+					next++
+				case <-returned:
+					watcherReturned = true
+				case <-bound:
+					c23Inconclusive(t, "watcher neither returned nor took a block within 20s after cancellation")
+				}
+			}
+			if !watcherReturned {
+				late := rec.snapshot()[beforeCancel:]
+				ctx.muted.Store(true) // park the goroutine that cannot be stopped
+				leaked++
+				t.Fatalf("the watcher is still running after its context was cancelled: it took all %d blocks offered after cancel() had returned and started coordination for windows %v after the cancellation (before: %v)",
+					postConsumed, late, rec.snapshot()[:beforeCancel])
+			}
+		}
+		// The watcher has returned: nobody may take blocks from the source any
+		// more (non-blocking offers of the rest of the stream).
+		for i := cancelAt; i < len(stream) && i < cancelAt+4; i++ {
+			select {
+			case blocks <- stream[i]:
+				t.Fatalf("block %d offered after the cancelled watcher had returned was consumed", stream[i])
+			default:
+			}
+		}
+		// every `go onWindowFn` the watcher was ever going to issue has been
+		// issued; wait until those goroutines are gone.
+		if !verifkit.Eventually(20*time.Second, func() bool { return runtime.NumGoroutine() <= baseline+leaked }) {
+			c23Inconclusive(t, fmt.Sprintf("goroutines did not settle (%d > %d)", runtime.NumGoroutine(), baseline+leaked))
 		}
 		got := rec.snapshot()
+		if postConsumed > 0 {
+			// blocks taken while racing with the cancellation may have had
+			// several callbacks in flight: their order is the scheduler's
+			sort.Slice(got[beforeCancel:], func(i, j int) bool { return got[beforeCancel+i] < got[beforeCancel+j] })
+		}
 		render := func() string {
 			var parts []string
 			for i := 0; i < cancelAt; i++ {
